@@ -45,7 +45,7 @@ def mk_obs(c):
     if k == "dir":  return Obs("direction", c[1], c[2], stdev=SIG_ANG)
     if k == "dist": return Obs("distance", c[1], c[2], stdev=SIG_LIN)
     if k == "ang":  return Obs("angle", c[1], None, bs=c[2], fs=c[3], stdev=SIG_ANG)
-    if k == "azi":  return Obs("azimuth", c[1], c[2], stdev=SIG_ANG)
+    if k == "azi":  return Obs("azimuth", c[1], c[2], stdev=SIG_ANG)      # c[3] (optional): 'first' = first in its cluster
     if k == "sd":   return Obs("s-distance", c[1], c[2], stdev=SIG_LIN, from_dh=c[3], to_dh=c[4])
     if k == "za":   return Obs("z-angle", c[1], c[2], stdev=SIG_ANG, from_dh=c[3], to_dh=c[4])
     if k == "dh":   return Obs("dh", c[1], c[2], stdev=SIG_LIN)
@@ -69,16 +69,22 @@ class Unit:
         self.name = name; self.dim = dim; self.points = points; self.cands = cands
         self.C = {p[0]: tuple(float(v) for v in p[1]) for p in points}
         self.I = {p[0]: p[1] for p in points}           # integer coordinates
-        self.new = [p[0] for p in points if p[2] == "new"]
+        # roles: 'fix' all coordinates fixed, 'new' all coordinates unknown,
+        # 'newz' (3-D only) xy fixed, height unknown
+        self.new = [p[0] for p in points if p[2] in ("new", "newz")]
+        self.newz = [p[0] for p in points if p[2] == "newz"]
         self.fix = [p[0] for p in points if p[2] == "fix"]
         self.unk = []                                   # (pid, coordinate index)
         for p in self.new:
-            if dim >= 2: self.unk += [(p, 0), (p, 1)]
+            if dim >= 2 and p not in self.newz: self.unk += [(p, 0), (p, 1)]
             if dim in (1, 3): self.unk.append((p, 2))
         self.groups = []                                # approximate-coordinate groups
         for p in self.new:
-            if dim >= 2: self.groups.append((p, "xy"))
+            if dim >= 2 and p not in self.newz: self.groups.append((p, "xy"))
             if dim in (1, 3): self.groups.append((p, "z"))
+        self.need = {}
+        for p in self.new:
+            self.need[p] = (["x", "y"] if (dim >= 2 and p not in self.newz) else []) + (["z"] if dim in (1, 3) else [])
         self._rows = None
 
     def key(self):
@@ -490,7 +496,7 @@ def closure(unit, mask, known_xy, known_z, trace=None):
 
 def resolvable(unit, mask, omitted):
     """omitted: set of groups (pid,'xy'|'z') written without approximate values"""
-    kxy = set(unit.fix) | set(p for p in unit.new if (p, "xy") not in omitted)
+    kxy = set(unit.fix) | set(p for p in unit.new if (p, "xy") not in omitted)     # includes the 'newz' points
     kz = set(unit.fix) | set(p for p in unit.new if (p, "z") not in omitted)
     tr = []
     fxy, fz = closure(unit, mask, kxy, kz, trace=tr)
@@ -508,9 +514,21 @@ def station_order(unit, mask):
     return st
 
 
-def build_net(unit, mask, variant, zrot):
+def group_orders(unit, mask):
+    """all orders of the cluster groups present in the state: the station
+    clusters (one block, stations in order of first appearance), the
+    height-differences, the vectors and the coordinates cluster"""
+    kinds = []
+    for c in unit.chosen(mask):
+        g = {"dh": "hd", "vec": "vec", "xyz": "xyz"}.get(c[0], "obs")
+        if g not in kinds: kinds.append(g)
+    return list(itertools.permutations(kinds))
+
+
+def build_net(unit, mask, variant, zrot, order=0):
     """variant: ('E',) | ('P', signs) one sign per unknown coordinate |
-    ('O', frozenset of omitted groups);  zrot: rotation of the zero menu"""
+    ('O', omitted groups, ..);  zrot: rotation of the zero menu; order: index
+    into group_orders()"""
     dim = unit.dim
     pts = []
     sgn = {}
@@ -519,31 +537,37 @@ def build_net(unit, mask, variant, zrot):
     om = variant[1] if variant[0] == "O" else ()
     for (pid, (x, y, z), role) in unit.points:
         st = "fix" if role == "fix" else "adj"
+        sxy = "fix" if role in ("fix", "newz") else "adj"
         p = Pt(pid, float(x) if dim >= 2 else None, float(y) if dim >= 2 else None,
                float(z) if dim in (1, 3) else None,
-               xy=st if dim >= 2 else None, zs=st if dim in (1, 3) else None)
-        if role == "new":
+               xy=sxy if dim >= 2 else None, zs=st if dim in (1, 3) else None)
+        if role in ("new", "newz"):
             if variant[0] == "P":
-                if dim >= 2: p.ax = (sgn[(pid, 0)], sgn[(pid, 1)])
+                if dim >= 2 and role == "new": p.ax = (sgn[(pid, 0)], sgn[(pid, 1)])
                 if dim in (1, 3): p.az = float(sgn[(pid, 2)])
             elif variant[0] == "O":
                 if (pid, "xy") in om: p.ax = False
                 if (pid, "z") in om: p.az = False
         pts.append(p)
     chosen = unit.chosen(mask)
-    clusters = []
+    groups = {}
     sts = station_order(unit, mask)
     for si, s in enumerate(sts):
-        ol = [mk_obs(c) for c in chosen if c[0] in ("dir", "dist", "ang", "azi", "sd", "za") and c[1] == s]
-        clusters.append(Cluster("obs", ol, frm=s, zero=ZERO_MENU[(si + zrot) % len(ZERO_MENU)]))
+        cs = [c for c in chosen if c[0] in ("dir", "dist", "ang", "azi", "sd", "za") and c[1] == s]
+        cs = [c for c in cs if c[0] == "azi" and len(c) > 3 and c[3] == "first"] + \
+             [c for c in cs if not (c[0] == "azi" and len(c) > 3 and c[3] == "first")]
+        groups.setdefault("obs", []).append(Cluster("obs", [mk_obs(c) for c in cs], frm=s, zero=ZERO_MENU[(si + zrot) % len(ZERO_MENU)]))
     hd = [mk_obs(c) for c in chosen if c[0] == "dh"]
-    if hd: clusters.append(Cluster("height-differences", hd))
+    if hd: groups["hd"] = [Cluster("height-differences", hd)]
     vc = [mk_obs(c) for c in chosen if c[0] == "vec"]
-    if vc: clusters.append(Cluster("vectors", vc, cov=gnet.band_cov(3 * len(vc), 0, lambda i, j: SIG_LIN ** 2)))
+    if vc: groups["vec"] = [Cluster("vectors", vc, cov=gnet.band_cov(3 * len(vc), 0, lambda i, j: SIG_LIN ** 2))]
     co = [mk_obs(c) for c in chosen if c[0] == "xyz"]
     if co:
         d = sum(o.dim() for o in co)
-        clusters.append(Cluster("coordinates", co, cov=gnet.band_cov(d, 0, lambda i, j: SIG_LIN ** 2)))
+        groups["xyz"] = [Cluster("coordinates", co, cov=gnet.band_cov(d, 0, lambda i, j: SIG_LIN ** 2))]
+    orders = group_orders(unit, mask)
+    clusters = []
+    for g in orders[order % len(orders)]: clusters += groups[g]
     net = Net(pts, clusters, **PARAMS)
     net.description = "C06 %s mask=%d" % (unit.key(), mask)
     gnet.fill_values(net)
